@@ -70,18 +70,20 @@ ANCHORS = [
     "txtorcon.socks:resolve_ptr",
 ]
 FLOORS = {
-    "quick": {"evaluations": 8000, "chunks_judged": 30000, "outcomes_compared": 8000, "app_bytes_compared": 20000,
-              "app_writes_compared": 1000, "disconnects_injected": 2000, "contract_evaluations": 30000,
-              "reach:txtorcon.socks:_SocksMachine._parse_request_reply": 20000,
-              "reach:txtorcon.socks:_SocksMachine._relay_data": 1000,
-              "reach:txtorcon.socks:_SocksMachine._make_connection": 1000,
-              "reach:txtorcon.socks:_create_socks_error": 1000,
-              "reach:txtorcon.socks:TorSocksEndpoint.connect": 1000},
-    "thorough": {"evaluations": 150000, "chunks_judged": 600000, "outcomes_compared": 150000,
-                 "app_bytes_compared": 400000, "app_writes_compared": 20000, "disconnects_injected": 40000,
-                 "contract_evaluations": 600000,
-                 "reach:txtorcon.socks:_SocksMachine._parse_request_reply": 400000,
-                 "reach:txtorcon.socks:_SocksMachine._relay_data": 20000},
+    "quick": {"evaluations": 6000, "chunks_judged": 25000, "outcomes_compared": 15000, "app_bytes_compared": 20000,
+              "app_writes_compared": 5000, "disconnects_injected": 1500, "contract_evaluations": 24000,
+              "error_classes_compared": 5000, "resolve_results_compared": 500,
+              "reach:txtorcon.socks:_SocksMachine._parse_request_reply": 15000,
+              "reach:txtorcon.socks:_SocksMachine._relay_data": 800,
+              "reach:txtorcon.socks:_SocksMachine._make_connection": 500,
+              "reach:txtorcon.socks:_create_socks_error": 1400,
+              "reach:txtorcon.socks:TorSocksEndpoint.connect": 1400},
+    "thorough": {"evaluations": 80000, "chunks_judged": 300000, "outcomes_compared": 200000,
+                 "app_bytes_compared": 300000, "app_writes_compared": 60000, "disconnects_injected": 20000,
+                 "contract_evaluations": 300000, "error_classes_compared": 60000, "resolve_results_compared": 8000,
+                 "reach:txtorcon.socks:_SocksMachine._parse_request_reply": 200000,
+                 "reach:txtorcon.socks:_SocksMachine._relay_data": 10000,
+                 "reach:txtorcon.socks:TorSocksEndpoint.connect": 15000},
 }
 
 METHOD_REPLIES = {"ok": (5, 0), "m1": (5, 1), "m2": (5, 2), "mff": (5, 0xFF), "v4": (4, 0), "v6": (6, 0), "v0": (0, 0)}
